@@ -198,10 +198,14 @@ fn header_id(res: &axum::response::Response) -> Option<Uuid> {
 
 /// POST /v1/subscriptions
 pub async fn subscribe(node: &Node, sc: &SubsCtx, sql: &str, from: Option<u64>, skip_rows: bool) -> Result<SubConn, String> {
+    subscribe_parts(&node.agent, &node.tripwire, sc, sql, from, skip_rows).await
+}
+
+pub async fn subscribe_parts(agent: &klukai_types::agent::Agent, tripwire: &klukai_types::tripwire::Tripwire, sc: &SubsCtx, sql: &str, from: Option<u64>, skip_rows: bool) -> Result<SubConn, String> {
     let res = api_v1_subs(
-        Extension(node.agent.clone()),
+        Extension(agent.clone()),
         Extension(sc.cache.clone()),
-        Extension(node.tripwire.clone()),
+        Extension(tripwire.clone()),
         axum::extract::Query(sub_params(from, skip_rows)),
         axum::Json(Statement::Simple(sql.into())),
     )
@@ -226,10 +230,14 @@ pub async fn subscribe(node: &Node, sc: &SubsCtx, sql: &str, from: Option<u64>, 
 
 /// GET /v1/subscriptions/{id}
 pub async fn attach(node: &Node, sc: &SubsCtx, id: Uuid, from: Option<u64>, skip_rows: bool) -> Result<SubConn, (u16, String)> {
+    attach_parts(&node.agent, &node.tripwire, sc, id, from, skip_rows).await
+}
+
+pub async fn attach_parts(agent: &klukai_types::agent::Agent, tripwire: &klukai_types::tripwire::Tripwire, sc: &SubsCtx, id: Uuid, from: Option<u64>, skip_rows: bool) -> Result<SubConn, (u16, String)> {
     let res = api_v1_sub_by_id(
-        Extension(node.agent.clone()),
+        Extension(agent.clone()),
         Extension(sc.cache.clone()),
-        Extension(node.tripwire.clone()),
+        Extension(tripwire.clone()),
         axum::extract::Path(id),
         axum::extract::Query(sub_params(from, skip_rows)),
     )
@@ -252,6 +260,20 @@ pub async fn attach(node: &Node, sc: &SubsCtx, id: Uuid, from: Option<u64>, skip
 }
 
 impl SubConn {
+    /// a stream that never existed (request refused)
+    pub fn closed(id: Uuid) -> Self {
+        let mut reader = LineReader::new(axum::body::Body::empty());
+        reader.done = true;
+        Self {
+            id,
+            status: 0,
+            reader,
+            replay: Replay::default(),
+            events: vec![],
+            unparsable: vec![],
+        }
+    }
+
     /// read one event (None: timeout or end of stream)
     pub async fn next_event(&mut self, timeout: Duration) -> Option<QueryEvent> {
         let line = self.reader.next_line(timeout).await?;
@@ -386,6 +408,8 @@ pub struct Pump {
     /// apply triggers announced and not yet consumed by the harness
     pub pending_apply: u64,
     pub events_seen: u64,
+    /// update notifications handed to listener channels: (table, key, causal length, type)
+    pub notified: Vec<(String, String, i64, String)>,
 }
 
 impl Pump {
@@ -401,6 +425,14 @@ impl Pump {
                 }
                 "match.idle" => self.matchers.entry(e.payload.clone()).or_insert(MatchState { idle: true, ..Default::default() }).idle = true,
                 "pmc.apply_trigger" => self.pending_apply += 1,
+                "upd.notify" => {
+                    let mut it = e.payload.splitn(4, ' ');
+                    if let (Some(t), Some(cl), Some(ty), Some(pk)) = (it.next(), it.next(), it.next(), it.next())
+                        && let Ok(cells) = serde_json::from_str::<Vec<SqliteValue>>(pk)
+                    {
+                        self.notified.push((t.to_string(), cells_key(&cells), cl.parse().unwrap_or(i64::MIN), ty.to_string()));
+                    }
+                }
                 _ => {}
             }
         }
